@@ -19,6 +19,7 @@ import (
 	"go/constant"
 	"go/token"
 	"go/types"
+	"math/bits"
 	"regexp"
 	"sort"
 	"strconv"
@@ -1268,12 +1269,13 @@ func wireEmitOnceKeys(w *World, wc *wireCtx, r *Report, prop string) {
 // functions of the packets it contains. In Lua a local function is visible only to the code that follows its declaration: a call,
 // inside an earlier function, to a function declared later resolves to a nil global when the script runs. Decided from the
 // generator's source:
-//   definitions  emission sites whose constant text is "local function <prefix>" followed by the packet's name;
-//   uses         emission sites whose constant text contains "<prefix>" followed by a name verb and "(" (a call);
-//   demand       if there are uses, then either the definitions are emitted in an order computed by a dependencies-first walk (the
-//                collection the definition loop ranges over is returned by a function that keeps a visited set, descends into the
-//                packets of by-name object fields and of match pairs, and appends a packet only after the descent), or every
-//                name is declared ahead of all definitions (an emission site "local <prefix><name>" without "function").
+//
+//	definitions  emission sites whose constant text is "local function <prefix>" followed by the packet's name;
+//	uses         emission sites whose constant text contains "<prefix>" followed by a name verb and "(" (a call);
+//	demand       if there are uses, then either the definitions are emitted in an order computed by a dependencies-first walk (the
+//	             collection the definition loop ranges over is returned by a function that keeps a visited set, descends into the
+//	             packets of by-name object fields and of match pairs, and appends a packet only after the descent), or every
+//	             name is declared ahead of all definitions (an emission site "local <prefix><name>" without "function").
 func c15HelpersDefinedFirst(w *World, wc *wireCtx, r *Report) {
 	const rule = "C15/helpers-defined-before-use"
 	own := wc.anchors["lua"]["own"]
@@ -2090,4 +2092,302 @@ func tailIsParam(fn *ssa.Function, pidx int) bool {
 		n++
 	}
 	return n > 0
+}
+
+// <prop>/kind-has-its-step: "No declared field is omitted" / "every declared field [has] its encode and decode step". The per-field
+// emitters dispatch on the field's kind; for every kind x repeat cell the grammar can produce there is an emission site that is
+// specific to the kind - reached under tests that admit the kind and at most two others (the three scalar kinds share their
+// representation; strings, objects and match payloads come alone or in pairs) - in the emitters of that language
+// and direction. A case that is present but empty (`case *model.ObjectFieldAttribute:` with nothing behind it) leaves the common
+// text around the field and emits nothing for it: the enc-sensitivity cells of kinds without a wire-determining input of their own
+// (an object delegates to the nested packet's codec) cannot see that.
+func wireKindHasStep(wc *wireCtx, r *Report, prop string, dirs []string) {
+	rule := prop + "/kind-has-its-step"
+	m := wc.m
+	n := 0
+	for _, l := range codecLangs {
+		for _, dir := range dirs {
+			fns := wc.anchors[l][dir]
+			if dir == "test" {
+				// the emitters of the self-test: sample values and sample instances
+				fns = nil
+				for _, f := range wc.anchors[l]["own"] {
+					if roleOf(f) == "test" {
+						fns = append(fns, f)
+					}
+				}
+			}
+			if len(fns) == 0 {
+				continue
+			}
+			for _, u := range feasibleUnits() {
+				specific := 0
+				where := ""
+				for _, fn := range fns {
+					miss := tableMissBlocks(fn)
+					for _, blk := range fn.Blocks {
+						if miss[blk] {
+							continue
+						}
+						st, f := m.stateAt(fn, blk)
+						if f == nil || st.empty() || !st.admits(u) {
+							continue
+						}
+						feasible := uint8(allKinds)
+						if u.List {
+							feasible = 1<<kBasic | 1<<kDyn | 1<<kFixed | 1<<kObject // what the grammar lets repeat
+						}
+						if bits.OnesCount8(st.K&feasible) > 3 {
+							continue // common text: the block is shared by more kinds than any one representation has (the three scalar kinds)
+						}
+						if at := producesText(blk); at != nil {
+							specific++
+							if where == "" {
+								where = m.w.instrPos(at)
+							}
+						}
+					}
+				}
+				n++
+				key := fmt.Sprintf("%s/%s/%s has an emission of its own", l, dir, u)
+				if specific > 0 {
+					r.pass(rule, key, where, fmt.Sprintf("%d kind-specific sites", specific))
+				} else {
+					r.fail(rule, key, "", fmt.Sprintf("no emission site of the %s %s emitters is specific to this kind of field (every site that admits it is common text): a field of this kind gets no %s step of its own - it is silently omitted", l, dir, map[string]string{"enc": "encode", "dec": "decode", "test": "sample"}[dir]))
+				}
+			}
+		}
+	}
+	if n == 0 {
+		r.fail(rule, "cells found", "", "no emitter anchors resolved")
+	}
+}
+
+// producesText: the block builds or hands on text: a call that yields or takes a string, a concatenation, a return of a string.
+func producesText(b *ssa.BasicBlock) ssa.Instruction {
+	for _, ins := range b.Instrs {
+		switch x := ins.(type) {
+		case *ssa.Call:
+			if isStringType(x.Type()) {
+				return x
+			}
+			for _, a := range x.Call.Args {
+				if isStringType(a.Type()) {
+					return x
+				}
+			}
+		case *ssa.BinOp:
+			if x.Op == token.ADD && isStringType(x.Type()) {
+				return x
+			}
+		case *ssa.Return:
+			for _, rv := range x.Results {
+				if isStringType(rv.Type()) {
+					if _, isConst := rv.(*ssa.Const); !isConst {
+						return x
+					}
+					if s, ok := constString(rv); ok && s != "" {
+						return x
+					}
+				}
+			}
+		}
+	}
+	return nil
+}
+
+// <prop>/le-spelling-on-the-le-side: a string constant with the little-endian spelling of a runtime call (`..._le`, `...LE`, `Le`) is
+// never produced on the side of a test of Configuration.LittleEndian on which the option is known to be false. Decided per constant
+// use: the edges of LittleEndian tests that dominate the block of the use (for a phi operand: the predecessor it comes from); a use
+// under contradictory edges is unreachable and skipped. The existing polarity rule compares the two arms of one branch where both
+// arms are emission sites; this one does not need the arms to have a particular shape (`if le { return x_le }; return x`).
+func wireLESpellingSide(w *World, wc *wireCtx, r *Report, prop string) {
+	rule := prop + "/le-spelling-on-the-le-side"
+	n := 0
+	for _, l := range codecLangs {
+		for _, fn := range wc.anchors[l]["own"] {
+			type edge struct {
+				b    *ssa.BasicBlock
+				succ int
+				le   bool
+			}
+			var edges []edge
+			for _, b := range fn.Blocks {
+				cond := branchCond(b)
+				if cond == nil {
+					continue
+				}
+				mode, neg, ok := classifyMode(cond)
+				if !ok || mode != modeLE {
+					continue
+				}
+				leSucc := 0
+				if neg {
+					leSucc = 1
+				}
+				edges = append(edges, edge{b, leSucc, true}, edge{b, 1 - leSucc, false})
+			}
+			if len(edges) == 0 {
+				continue
+			}
+			sideOf := func(x *ssa.BasicBlock, viaPhi *ssa.BasicBlock) (le, be bool) {
+				for _, e := range edges {
+					dom := edgeDominates(e.b, e.succ, x)
+					if !dom && viaPhi != nil && x == e.b && e.b.Succs[e.succ] == viaPhi {
+						dom = true // the arm is empty: the value travels on the branch's own edge into the join
+					}
+					if dom {
+						if e.le {
+							le = true
+						} else {
+							be = true
+						}
+					}
+				}
+				return
+			}
+			bad := ""
+			uses := 0
+			forEachInstr(fn, func(b *ssa.BasicBlock, ins ssa.Instruction) {
+				for i, op := range ins.Operands(nil) {
+					if *op == nil {
+						continue
+					}
+					k, ok := (*op).(*ssa.Const)
+					if !ok {
+						continue
+					}
+					s, ok := constString(k)
+					if !ok || !leFlavoured(s) {
+						continue
+					}
+					x := b
+					var via *ssa.BasicBlock
+					if phi, isPhi := ins.(*ssa.Phi); isPhi && i < len(b.Preds) {
+						x, via = b.Preds[i], phi.Block()
+					}
+					le, be := sideOf(x, via)
+					if le && be {
+						continue // contradictory: unreachable
+					}
+					if le || be {
+						uses++
+					}
+					if be && bad == "" {
+						bad = fmt.Sprintf("%q is produced at %s on the side where LittleEndian is false", s, w.instrPos(ins))
+					}
+				}
+			})
+			if uses == 0 {
+				continue
+			}
+			n++
+			key := fmt.Sprintf("%s: %s spells little-endian calls only where LittleEndian is set", l, fnKey(fn))
+			if bad == "" {
+				r.pass(rule, key, w.pos(fn.Pos()), fmt.Sprintf("%d uses", uses))
+			} else {
+				r.fail(rule, key, w.pos(fn.Pos()), bad+": the two byte orders are swapped for what this routine emits")
+			}
+		}
+	}
+	if n == 0 {
+		r.fail(rule, "little-endian spellings under LittleEndian tests found", "", "no emitter spells a little-endian call under a test of the option")
+	}
+}
+
+var listIdiomRE = regexp.MustCompile(`\.add\(|\.append\(|\.push_back\(|\.push\(|\.emplace_back\(`)
+
+// <prop>/element-idiom-on-the-repeat-side: the decoders read the elements of a repeated field one by one and add each to the member
+// (`this.x.add(..)`, `self.x.append(..)`, `x.push_back(..)`), while a single field is assigned. A constant that spells the
+// add-to-a-list idiom of the target language is never produced on the side of a test of Field.IsRepeat on which the field is known
+// not to repeat (same construction as le-spelling-on-the-le-side; a fixed lexicon of five method spellings).
+func wireListIdiomSide(w *World, wc *wireCtx, r *Report, prop string) {
+	rule := prop + "/element-idiom-on-the-repeat-side"
+	n := 0
+	for _, l := range codecLangs {
+		for _, fn := range wc.anchors[l]["own"] {
+			type edge struct {
+				b      *ssa.BasicBlock
+				succ   int
+				repeat bool
+			}
+			var edges []edge
+			for _, b := range fn.Blocks {
+				cond := branchCond(b)
+				if cond == nil {
+					continue
+				}
+				mode, neg, ok := classifyMode(cond)
+				if !ok || mode != modeRepeat {
+					continue
+				}
+				rs := 0
+				if neg {
+					rs = 1
+				}
+				edges = append(edges, edge{b, rs, true}, edge{b, 1 - rs, false})
+			}
+			if len(edges) == 0 {
+				continue
+			}
+			bad := ""
+			uses := 0
+			forEachInstr(fn, func(b *ssa.BasicBlock, ins ssa.Instruction) {
+				for i, op := range ins.Operands(nil) {
+					if *op == nil {
+						continue
+					}
+					k, ok := (*op).(*ssa.Const)
+					if !ok {
+						continue
+					}
+					s, ok := constString(k)
+					if !ok || !listIdiomRE.MatchString(s) {
+						continue
+					}
+					x := b
+					var via *ssa.BasicBlock
+					if phi, isPhi := ins.(*ssa.Phi); isPhi && i < len(b.Preds) {
+						x, via = b.Preds[i], phi.Block()
+					}
+					rep, single := false, false
+					for _, e := range edges {
+						dom := edgeDominates(e.b, e.succ, x)
+						if !dom && via != nil && x == e.b && e.b.Succs[e.succ] == via {
+							dom = true
+						}
+						if dom {
+							if e.repeat {
+								rep = true
+							} else {
+								single = true
+							}
+						}
+					}
+					if rep && single {
+						continue
+					}
+					if rep || single {
+						uses++
+					}
+					if single && bad == "" {
+						bad = fmt.Sprintf("%q is produced at %s on the side where the field does not repeat", s, w.instrPos(ins))
+					}
+				}
+			})
+			if uses == 0 {
+				continue
+			}
+			n++
+			key := fmt.Sprintf("%s: %s adds elements only where the field repeats", l, fnKey(fn))
+			if bad == "" {
+				r.pass(rule, key, w.pos(fn.Pos()), fmt.Sprintf("%d uses", uses))
+			} else {
+				r.fail(rule, key, w.pos(fn.Pos()), bad+": a single field is added to a list it does not have and a repeated one is overwritten element by element")
+			}
+		}
+	}
+	if n == 0 {
+		r.pass(rule, "element idioms under IsRepeat tests found", "", "no emitter spells an add-to-list call under a test of IsRepeat")
+	}
 }
